@@ -170,7 +170,7 @@ def gen_case(rnd, kind):
             return None
         right = apm.Program([apm.SrcFile(f.name, unroll(f.stmts, counts)) for f in prog.files], prog.aux, prog.blobs, prog.charset)
     elif kind == "link":
-        prog, ref, info = tight.gen_program(rnd, nfiles=rnd.choice([2, 3]), opts={"include": False, "insert": rnd.random() < 0.3})
+        prog, ref, info = tight.gen_program(rnd, nfiles=rnd.choice([2, 3]), opts={"include": False, "insert": rnd.random() < 0.3, "shadow": False})
         merged = []
         for f in prog.files:
             merged.extend(f.stmts)
@@ -219,8 +219,14 @@ def gen_case(rnd, kind):
         top = [i for i in range(len(f.stmts) + 1)]
         p1, p2 = sorted(rnd.sample(top, 2)) if len(top) >= 2 else (0, 0)
         left_stmts = list(f.stmts)
-        left_stmts[p2:p2] = [apm.simple(".even"), apm.include("once7.mac"), apm.simple(".even")]
-        left_stmts[p1:p1] = [apm.simple(".even"), apm.include("once7.mac"), apm.simple(".even")]
+
+        def inc():
+            # the same file under another spelling of its path is the same file
+            st = apm.include("once7.mac")
+            st.spell = rnd.choice(["once7.mac", "once7.mac", "./once7.mac", "././once7.mac", ".//once7.mac"])
+            return st
+        left_stmts[p2:p2] = [apm.simple(".even"), inc(), apm.simple(".even")]
+        left_stmts[p1:p1] = [apm.simple(".even"), inc(), apm.simple(".even")]
         right_stmts = list(f.stmts)
         right_stmts[p2:p2] = [apm.simple(".even"), apm.simple(".even")]
         right_stmts[p1:p1] = [apm.simple(".even"), apm.include("once7.mac"), apm.simple(".even")]
